@@ -82,7 +82,10 @@ func refactorFamily(c map[string]json.RawMessage) (interface{}, error) {
 		_ = json.Unmarshal(b, &parsed)
 		oldName, newName := str(c, "old"), str(c, "new")
 		seg := strings.Split(oldName, ".")
-		sites := renameSites(parsed, strings.Join(seg[:len(seg)-1], ""), seg[len(seg)-1], strip)
+		sites := renameSites(parsed, strings.Join(seg[:len(seg)-2], ".")+seg[len(seg)-2], seg[len(seg)-1], strip)
+		if str(c, "only") == "sites" {
+			return map[string]interface{}{"sites": sites}, nil
+		}
 		app := renameapp.RenameMethodApp(parsed)
 		app.Refactoring(oldName + " -> " + newName)
 		files := readTree(dir)
